@@ -199,7 +199,9 @@ func (P *Program) addSpecFile(sf *SpecFile) {
 			if tp := P.tpkgByName[parts[0]]; tp != nil && len(parts) == 2 {
 				key = tp.Path() + "::" + parts[1]
 			}
-		} else if fs.Pkg == "" {
+		} else if fs.Pkg == "" || (!strings.HasPrefix(fs.Key, "(") && strings.Contains(fs.Key, ".") && P.tpkgByName[strings.SplitN(fs.Key, ".", 2)[0]] != nil &&
+			P.tpkgByPath[fs.Pkg] != nil && P.tpkgByPath[fs.Pkg].Scope().Lookup(strings.SplitN(fs.Key, ".", 2)[0]) == nil) {
+			// pkgname.Func / pkgname.(*T).M : contract for a function of another package (trusted library table)
 			parts := strings.SplitN(fs.Key, ".", 2)
 			if tp := P.tpkgByName[parts[0]]; tp != nil && len(parts) == 2 {
 				key = tp.Path() + "::" + parts[1]
